@@ -47,6 +47,7 @@ ENUMS['ControlFlow'] = ['Continue', 'Break']
 # ---------- impl resolution: (Type, method) -> def name ----------
 IMPL_AT = re.compile(r'<impl at ([^:]+):(\d+):(\d+): (\d+):(\d+)>::(\w+)$')
 RES = {}
+RES_MULTI = {}
 _src_cache = {}
 def src_lines(p):
     if p not in _src_cache: _src_cache[p] = open(REPO + p).read().split('\n')
@@ -81,11 +82,20 @@ for name in fns:
         hdr = re.sub(r'\s+where\b.*$', '', hdr)
         if ' for ' in hdr:
             trait, ty = hdr.split(' for ', 1)
+            _full = line
+            _k = L
+            while '{' not in _full: _full += ' ' + lines[_k].strip(); _k += 1
+            _g = re.match(r'\s*(?:unsafe )?impl<(.*?)>\s', _full)
+            _generics = [x.strip().split(':')[0].replace('const ', '').strip() for x in _g.group(1).split(',')] if _g else []
             mm = re.match(r'&?(?:mut )?(?:\'\w+ )?([\w:]+)', ty.strip())
             if not mm: continue
             tyb = mm.group(1).split('::')[-1]
             RES.setdefault(f'<{tyb} as {trait.strip()}>::{meth}', name)
+            _tb = interp.Interp.strip_generics(trait.strip()).split('<')[0].split('::')[-1]
+            _ta = trait.strip()[trait.strip().index('<')+1:-1] if '<' in trait else ''
+            RES_MULTI.setdefault(f'<{tyb} as {_tb}>::{meth}', []).append((_ta, _generics, name))
             RES.setdefault(f'<{tyb} as {interp.Interp.strip_generics(trait.strip()).split("<")[0]}>::{meth}', name)
+            RES.setdefault(f'<{tyb} as {interp.Interp.strip_generics(trait.strip()).split("<")[0].split("::")[-1]}>::{meth}', name)
         else:
             mm = re.match(r'[\w:]+', hdr)
             if not mm: continue
@@ -93,6 +103,31 @@ for name in fns:
             RES[f'{tyb}::{meth}'] = name
 
 class I2(Interp):
+    def resolve_strict(self, name):
+        if name.startswith(('std::', 'core::', 'alloc::', '<std::', '<core::', '<alloc::')): return None
+        mm = re.match(r'^<&?(?:mut )?([\w:]+)(?:<.*>)? as ([\w:]+)<(.*)>>::(\w+)$', name)
+        if mm:
+            k = f'<{mm.group(1).split("::")[-1]} as {mm.group(2).split("::")[-1]}>::{mm.group(4)}'
+            cands = RES_MULTI.get(k, [])
+            if len(cands) > 1:
+                arg = mm.group(3); best = None
+                for pat, gens, nm in cands:
+                    rx = re.escape(pat)
+                    for gname in gens:
+                        if gname: rx = re.sub(r'(?<![\w])' + re.escape(gname) + r'(?![\w])', '.+', rx)
+                    rx = rx.replace("\\'a\\ ", "").replace("\\'_\\ ", "")
+                    if re.fullmatch(rx, arg):
+                        score = len(re.sub(r'\.\+', '', rx))
+                        if best is None or score > best[0]: best = (score, nm)
+                if best: return self.fns[best[1]]
+                return None
+        if name in self.fns: return self.fns[name]
+        if name in RES: return self.fns[RES[name]]
+        m = re.match(r'^<&?(?:mut )?([\w:]+)(?:<.*>)? as ([\w:]+)(<.*>)?>::(\w+)$', name)
+        if m:
+            k = f'<{m.group(1).split("::")[-1]} as {m.group(2).split("::")[-1]}>::{m.group(4)}'
+            if k in RES: return self.fns[RES[k]]
+        return None
     def find_fn(self, name):
         if name in self.fns: return self.fns[name]
         mp = re.match(r'^(.*)::(promoted\[\d+\])$', name)
@@ -182,7 +217,7 @@ def _(I, ctx): return VecV([])
 def _(I, ctx): return VecV([])
 @model('re:^<Vec<.*> as Into<Vec<.*>>>::into$')
 def _(I, ctx, v): return v
-@model('re:^<Vec<.*> as Deref>::deref$')
+@model('re:^<Vec<.*> as Deref(Mut)?>::deref(_mut)?$')
 def _(I, ctx, r): return Ref(lambda: deref(r), None)
 @model('re:^core::slice::<impl \\[.*\\]>::iter$')
 def _(I, ctx, r):
